@@ -142,9 +142,9 @@ DecodeRune(src, a, lim) ==        \* bytes src[a:lim], a < lim
 
 EncodeRune(c) ==
   IF c < 128 THEN <<c>>
-  ELSE IF c < 2048 THEN <<192 + c \div 64, 128 + c % 64>>
-  ELSE IF c < 65536 THEN <<224 + c \div 4096, 128 + (c \div 64) % 64, 128 + c % 64>>
-  ELSE <<240 + c \div 262144, 128 + (c \div 4096) % 64, 128 + (c \div 64) % 64, 128 + c % 64>>
+  ELSE IF c < 2048 THEN <<192 + (c \div 64), 128 + (c % 64)>>
+  ELSE IF c < 65536 THEN <<224 + (c \div 4096), 128 + ((c \div 64) % 64), 128 + (c % 64)>>
+  ELSE <<240 + (c \div 262144), 128 + ((c \div 4096) % 64), 128 + ((c \div 64) % 64), 128 + (c % 64)>>
 
 ----------------------------------------------------------------------------
 (* Strings: lexer.scanString.  start = offset of the token text, off0 =      *)
